@@ -62,6 +62,11 @@ pub struct DrvState {
     pub budget_hit: bool,
     pub fin_done: bool,
     pub forced_done: [bool; 3],
+    pub consec_polls: u32,
+    pub stall_budget: u32,
+    pub spurious_budget: u32,
+    pub clock_budget: u32,
+    pub cancel_budget: u32,
 }
 
 pub struct SimDriver {
@@ -88,6 +93,11 @@ impl SimDriver {
                 budget_hit: false,
                 fin_done: false,
                 forced_done: [false; 3],
+                consec_polls: 0,
+                stall_budget: 3,
+                spurious_budget: 8,
+                clock_budget: 3,
+                cancel_budget: 4,
             }),
         }
     }
@@ -153,6 +163,19 @@ impl SimDriver {
 
     fn enabled(&self) -> Vec<(Act, u32)> {
         let plan = &self.plan;
+        {
+            // skip scripted steps whose precondition can never hold any more
+            let mut st = self.st.borrow_mut();
+            for peer in st.peers.iter_mut() {
+                while let Some(step) = plan.peer.script.get(peer.script_pos) {
+                    if peer.pre_dead(&step.pre) {
+                        peer.script_pos += 1;
+                    } else {
+                        break;
+                    }
+                }
+            }
+        }
         let st = self.st.borrow();
         let settle = st.phase != Phase::Main;
         let mut acts: Vec<(Act, u32)> = Vec::new();
@@ -230,10 +253,10 @@ impl SimDriver {
             }
             // faults on the write path
             if !settle {
-                if !st.stalled[c] && plan.faults.p_wr_stall > 0 && peer.connected {
+                if !st.stalled[c] && plan.faults.p_wr_stall > 0 && peer.connected && st.stall_budget > 0 {
                     acts.push((Act::Stall(c), plan.faults.p_wr_stall));
                 }
-                if plan.faults.p_spurious > 0 {
+                if plan.faults.p_spurious > 0 && st.spurious_budget > 0 {
                     acts.push((Act::Spurious(c), plan.faults.p_spurious));
                 }
             }
@@ -270,11 +293,11 @@ impl SimDriver {
                 if s.waiting && !s.go {
                     acts.push((Act::AppGo(i), 20));
                 }
-                if s.busy && !s.waiting && plan.p_cancel > 0 {
+                if s.busy && !s.waiting && plan.p_cancel > 0 && st.cancel_budget > 0 {
                     acts.push((Act::AppCancel(i), plan.p_cancel));
                 }
             }
-            if plan.faults.p_clock_stall > 0 {
+            if plan.faults.p_clock_stall > 0 && st.clock_budget > 0 {
                 acts.push((Act::ClockStall, plan.faults.p_clock_stall));
             }
         }
@@ -411,10 +434,12 @@ impl SimDriver {
             Act::GateRead(g) => self.w.gate_allow_read(g),
             Act::AppGo(s) => self.w.sender_go(s),
             Act::AppCancel(s) => {
+                self.st.borrow_mut().cancel_budget -= 1;
                 self.w.fault(0, "cancel_op", s as u64);
                 self.w.sender_cancel(s);
             }
             Act::Stall(c) => {
+                self.st.borrow_mut().stall_budget -= 1;
                 self.st.borrow_mut().stalled[c] = true;
                 self.w.wire(c).set_wr_cap(Some(0));
                 self.w.fault(c, "wr_stall", 0);
@@ -433,10 +458,12 @@ impl SimDriver {
                 self.w.ev(Ev::Note { what: format!("unstall conn {c}") });
             }
             Act::Spurious(c) => {
+                self.st.borrow_mut().spurious_budget -= 1;
                 self.w.wire(c).spurious_wake();
                 self.w.fault(c, "spurious_wake", 0);
             }
             Act::ClockStall => {
+                self.st.borrow_mut().clock_budget -= 1;
                 let d = {
                     let mut ch = self.w.ch.borrow_mut();
                     (1 + u64::from(ch.choose(5))) * 700
@@ -619,13 +646,19 @@ impl Driver for SimDriver {
                 break;
             }
 
+            // The real driver looks at external events every `event_interval` (61) task polls even
+            // when tasks stay runnable (a self-waking task must not starve io): same here.
+            let consec = self.st.borrow().consec_polls;
             let take_ext = if runnable.is_empty() {
                 true
             } else if acts.is_empty() {
                 false
+            } else if consec >= 61 {
+                true
             } else {
                 self.w.ch.borrow_mut().chance(plan.p_ext, 1000)
             };
+            self.st.borrow_mut().consec_polls = if take_ext { 0 } else { consec + 1 };
 
             if take_ext {
                 let weights: Vec<u32> = acts.iter().map(|(_, w)| *w).collect();
@@ -650,7 +683,8 @@ impl Driver for SimDriver {
                     }
                 };
                 let (qidx, _, _) = runnable[k];
-                rt.sim_run(qidx);
+                let tid = rt.sim_run(qidx);
+                log::trace!("RUN task {tid:?} (queue len was {})", runnable.len());
                 self.w.stats.borrow_mut().task_polls += 1;
             }
             self.observe();
